@@ -16,6 +16,11 @@ def encodeTag (tg : Option Tag) (b : Builder) : Outcome Builder :=
   | some t => b.writeUint t.val t.len
   | none => .err "invalid tag"
 
+/-- the value side of C05's codec parameter on the encoder side: what `Marshal(leaf, v)` appends -/
+def valueCodecEnc (enc : Val → Outcome Builder) : Hashmap.Codec Val where
+  enc v := (enc v).bind fun b => .ok (b.bits, b.refs)
+  dec _ _ := .err "encoder only"
+
 mutual
 
 /-- `encode(c, tag, o, encoder)` for a struct field carrying field tag `ft` -/
@@ -123,9 +128,78 @@ def encode (env : Env) : Nat → Ty → Val → Builder → Outcome Builder
     | .vmStack e => do
       let b ← b.writeUint (Prim.valLen v) 24
       encodeStack env fuel e v b
-    | .dictE _ => (match v with
-      | .nil => b.writeBit false           -- hme_empty$0
-      | _ => .err "unmodelled")
+    | .dictE k t =>
+      -- HashmapE.MarshalTLB: Maybe ^(Hashmap n X); the tree itself is C05's `Hashmap.marshal`
+      (match dictParts v, keyWidth k with
+      | some (ks, vs), some n =>
+        if ks.isEmpty then b.writeBit false           -- hme_empty$0
+        else do
+          let b ← b.writeBit true
+          let kbits ← mapMOutcome (fun kv => (encode env fuel k kv Builder.empty).bind fun kb => .ok kb.bits) ks
+          match zipKV kbits vs with
+          | none => .err "hashmap has more keys than values"
+          | some kvs => do
+            let root ← Hashmap.marshal (valueCodecEnc (fun x => encode env fuel t x Builder.empty)) n kvs
+            b.addRef root
+      | _, _ => .err "bad value")
+    | .dict k t =>
+      -- Hashmap.MarshalTLB: the root edge goes into the CURRENT cell; an empty map writes nothing
+      (match dictParts v, keyWidth k with
+      | some (ks, vs), some n =>
+        if vs.isEmpty then .ok b
+        else do
+          let kbits ← mapMOutcome (fun kv => (encode env fuel k kv Builder.empty).bind fun kb => .ok kb.bits) ks
+          match zipKV kbits vs with
+          | none => .err "hashmap has more keys than values"
+          | some kvs => do
+            let root ← Hashmap.marshal (valueCodecEnc (fun x => encode env fuel t x Builder.empty)) n kvs
+            let b ← b.writeBits root.bits
+            root.refs.foldlM (fun b r => b.addRef r) b
+      | _, _ => .err "bad value")
+    | .chain e =>
+      -- W5ExtendedActions.MarshalTLB: an element, then (unless it was the last) a fresh cell behind one reference
+      (match v with
+      | .nil => .ok b
+      | .cons x rest => do
+        let b ← encode env fuel e x b
+        match rest with
+        | .nil => .ok b
+        | _ => do
+          let child ← encode env fuel (.chain e) rest Builder.empty
+          b.addRef child.toCell
+      | _ => .err "bad value")
+    | .highload =>
+      if Prim.valLen v > 254 then .err "PayloadHighload supports only up to 254 messages"
+      else (match hlToDict v with
+        | some d => encode env fuel (.dictE (.uint 16) (.prim .any)) d b
+        | none => .err "bad value")
+    | .dictAugE _ _ x =>
+      -- HashmapAugE.MarshalTLB: Maybe ^(HashmapAug) + extra; HashmapAug.MarshalTLB is "not implemented", so only the
+      -- empty dictionary can be written
+      (match v with
+      | .cons ks (.cons _ (.cons xv .nil)) =>
+        (match ks with
+        | .nil => do
+          let b ← b.writeBit false
+          encode env fuel x xv b
+        | _ => .err "not implemented")
+      | _ => .err "bad value")
+    | .dictAug _ _ _ => .err "not implemented"
+    | .binTree _ => .err "BinTree marshaling not implemented"
+    | .custom id body aux =>
+      if id = "tlb.McStateExtraOther" then
+        -- McStateExtraOther.MarshalTLB mirrors the decoder: block_create_stats only when flags == 1
+        (match v, aux with
+        | .cons (.int flags) (.cons a (.cons p (.cons c (.cons d (.cons e .nil))))),
+          .struct (.cons _ _ _ (.cons _ _ vi (.cons _ _ pb (.cons _ _ akb (.cons _ _ lkb (.cons _ _ bcs .nil)))))) => do
+          let b ← b.writeUint flags.toNat 16
+          let b ← encode env fuel vi a b
+          let b ← encode env fuel pb p b
+          let b ← encode env fuel akb c b
+          let b ← encode env fuel lkb d b
+          if flags = 1 then encode env fuel bcs e b else .ok b
+        | _, _ => .err "bad value")
+      else encode env fuel body v b
     | .encErr _ => .err "marshaling not implemented"
     | .opaque _ => .err "unmodelled"
 
